@@ -1,0 +1,12 @@
+//go:build verif
+
+package martian
+
+// VerifLiveContexts returns the number of request-to-context associations currently held.
+// It exists only under the "verif" build tag, for leak checks at quiescence.
+func VerifLiveContexts() int {
+	ctxmu.RLock()
+	defer ctxmu.RUnlock()
+
+	return len(ctxs)
+}
